@@ -1,2 +1,291 @@
-(** C02 — statements (being written). *)
-From Verif Require Import Lib.Base Lib.PyStr Deb822.Model Deb822.Spec.
+(** C02 — Deb822 paragraphs survive dump and re-parse, whatever the input form.
+    Only statements; every proof is [exact <lemma>] (lemmas in Deb822/Proofs*.v).
+
+    Model: Deb822/Model.v (the functions [agree] of Deb822/Check.v runs: [dump],
+    [deb822_new], [iter_paragraphs], [iter_lines], [init_of], [lines_of]).
+    Spec: Deb822/Spec.v ([valid_para], [expected_para] are what [holds] uses;
+    the document shapes [block], [valid_blocks], [doc_lines], [armor_lines],
+    [forms_of] are the property's quantifier).
+
+    Vocabulary.  A paragraph [d] is a list of (name, value); [valid_para d]:
+    policy-valid names pairwise distinct ignoring case, first line of each value
+    arbitrary text without line-boundary characters, continuation lines starting
+    with space/tab, containing a non-blank character, without line-boundary
+    characters.  [expected_para d]: the same names in the same order, values with
+    the first line trimmed.  [ws] is the strict setting
+    whitespace-separates-paragraphs; [c] is the class (Deb822 | Dsc/Changes).
+    A [block] is a paragraph, optionally wrapped in a clearsign envelope
+    ([armor]: padding after the three armour lines, header lines, signature
+    lines), followed by its separating blank lines.
+
+    Limits of the model that the statements inherit (Model.v header, harness
+    ASSUMPTIONS): bytes inputs are the code points of their UTF-8 decoding (codec
+    not modelled); names compare by ASCII lower-casing; for Dsc/Changes
+    ([CGpgMv]) the model is claimed faithful only for field names outside the
+    _multivalued_fields tables (Files, Checksums-*: property C12). *)
+From Coq Require Import String.
+From Verif Require Import Lib.Base Lib.Dec Lib.PyStr Gen.PyChars
+  Deb822.Model Deb822.Spec Deb822.ProofsStr Deb822.ProofsConsume Deb822.Proofs Deb822.ProofsMore Deb822.ProofsGpgMv.
+
+(** 0. dump() writes the Policy lines of the paragraph: "Name: first" (no blank
+       after the colon when the first line is empty), then the continuation lines. *)
+Theorem C02_dump_lines :
+  forall d, valid_para d = true -> dump d = unlines (para_lines d).
+Proof. exact dump_lines. Qed.
+
+(** 1. dump_parse_para: parse (dump p) = trim_first p, for the constructor of
+       either class, either strictness. *)
+Theorem C02_dump_parse_para :
+  forall c ws d, valid_para d = true ->
+    deb822_new c ws (InStr (dump d)) = Ok (expected_para d).
+Proof. exact dump_parse_para. Qed.
+
+(** 2. dump_parse_doc: a document = optional leading blank lines, then any number
+       of blocks (dumped paragraph, optionally clearsigned, followed by >= 1 blank
+       lines; none needed after the last or after a signed one), read with
+       iter_paragraphs, gives the paragraphs back in order, first lines trimmed. *)
+Theorem C02_dump_parse_doc :
+  forall c ws lead bs,
+    forallb ws_line lead = true -> valid_blocks ws bs = true ->
+    iter_paragraphs c ws (InStr (doc_text lead bs))
+    = Ok (map (fun b => expected_para (b_para b)) bs).
+Proof. exact dump_parse_doc. Qed.
+
+(** 3. input_form_invariant: for ANY logical lines without line-boundary
+       characters (not only valid documents), the five physical forms - str,
+       bytes (code points of the UTF-8 decoding, see Model.v), file object, list
+       of lines without and with line ends - with LF or CRLF line ends, are read
+       identically, by iter_paragraphs of both classes and by Deb822(...). *)
+Theorem C02_input_form_invariant :
+  forall c ws crlf ls i,
+    forallb no_linebreak ls = true -> In i (forms_of crlf ls) ->
+    iter_paragraphs c ws i = iter_lines c ws ls.
+Proof. exact iter_paragraphs_forms. Qed.
+
+Theorem C02_input_form_invariant_constructor :
+  forall ws crlf ls i,
+    forallb no_linebreak ls = true -> In i (forms_of crlf ls) ->
+    deb822_new CDeb822 ws i = fst (deb822_init ws ls).
+Proof. exact deb822_new_forms. Qed.
+
+(** ... and when the text does not end with a line end (last line [last]
+    non-empty; a text whose last line is empty is the previous case). *)
+Theorem C02_input_form_invariant_nofinal :
+  forall c ws crlf init last i,
+    forallb no_linebreak (init ++ [last]) = true -> is_nil' last = false ->
+    In i (forms_nofinal crlf init last) ->
+    iter_paragraphs c ws i = iter_lines c ws (init ++ [last]).
+Proof.
+  intros c ws crlf init last i H Hne. apply iter_paragraphs_forms_nofinal; [exact H|].
+  now destruct last.
+Qed.
+
+(** The core of it: a physical line is boundary-free text followed by any run of
+    CR/LF characters ([line_ok]); the reader's result depends only on the lines
+    with those runs removed ([chomp]). *)
+Theorem C02_line_ends_irrelevant :
+  forall c ws ls,
+    forallb line_ok ls = true -> iter_lines c ws (map chomp ls) = iter_lines c ws ls.
+Proof. exact iter_lines_chomp. Qed.
+
+(** 4. armor_invariant: one valid paragraph inside a clearsign envelope
+       (BEGIN PGP SIGNED MESSAGE, >= 0 header lines, blank, payload, BEGIN PGP
+       SIGNATURE, any signature lines, END) is read as the bare paragraph is, and
+       the reader stops exactly behind the END line. *)
+Theorem C02_armor_invariant :
+  forall c ws lead a d rest,
+    forallb ws_line lead = true -> valid_armor ws a = true -> valid_para d = true ->
+    is_nil' d = false ->
+    init_of c ws (lead ++ armor_lines a (para_lines d) ++ rest) = (Ok (expected_para d), rest)
+    /\ fst (init_of c ws (lead ++ para_lines d)) = Ok (expected_para d).
+Proof.
+  intros c ws lead a d rest H1 H2 H3 Hne. apply armor_invariant; try assumption.
+  now destruct d.
+Qed.
+
+(** ... and at the level of Deb822.split_gpg_and_payload (raw iterator): the
+    payload is exactly the paragraph's lines, signed or not. *)
+Theorem C02_armor_payload :
+  forall ws lead a d rest,
+    forallb ws_line lead = true -> valid_armor ws a = true -> valid_para d = true ->
+    is_nil' d = false ->
+    exists pre post,
+      split_gpg_and_payload ws (lead ++ armor_lines a (para_lines d) ++ rest)
+      = (Ok (pre, para_lines d, post), rest).
+Proof.
+  intros ws lead a d rest H1 H2 H3 Hne. apply split_payload_armor; try assumption.
+  now destruct d.
+Qed.
+
+Theorem C02_plain_payload :
+  forall ws lead d sep rest,
+    forallb ws_line lead = true -> valid_para d = true -> is_nil' d = false ->
+    sep_line ws sep = true ->
+    split_gpg_and_payload ws (lead ++ para_lines d ++ sep :: rest) = (Ok ([], para_lines d, []), rest)
+    /\ split_gpg_and_payload ws (lead ++ para_lines d) = (Ok ([], para_lines d, []), []).
+Proof.
+  intros ws lead d sep rest H1 H2 Hne H3. apply split_payload_plain; try assumption.
+  now destruct d.
+Qed.
+
+(** 5. comments_ignored: for Deb822, on ANY line list, comment lines are
+       invisible: the result is that of the list with every '#' line removed
+       (so inserting '#' lines anywhere changes nothing). *)
+Theorem C02_comments_ignored :
+  forall ws ls,
+    iter_lines CDeb822 ws ls = iter_lines CDeb822 ws (filter not_comment ls).
+Proof. exact iter_lines_comments. Qed.
+
+Theorem C02_comments_ignored_constructor :
+  forall ws ls,
+    fst (deb822_init ws ls) = fst (deb822_init ws (filter not_comment ls)).
+Proof. exact deb822_init_comments. Qed.
+
+(** 6. The property as one statement: a document of valid blocks, plain or
+       clearsigned, with comment lines inserted anywhere ([ls] is any line list
+       whose non-comment lines are the document's), presented in any input form
+       with LF or CRLF line ends, reads back through Deb822.iter_paragraphs as its
+       paragraphs with first lines trimmed. *)
+Theorem C02_roundtrip_any_form :
+  forall ws crlf lead bs ls i,
+    forallb ws_line lead = true -> valid_blocks ws bs = true ->
+    forallb no_linebreak ls = true -> filter not_comment ls = doc_lines lead bs ->
+    In i (forms_of crlf ls) ->
+    iter_paragraphs CDeb822 ws i = Ok (map (fun b => expected_para (b_para b)) bs).
+Proof. exact roundtrip_any_form. Qed.
+
+(** For Dsc/Changes (and Deb822) without comment lines.  With comments the
+    statement is false for Dsc/Changes: their constructor splits the RAW lines
+    first, so a block of comment lines closed by an empty line is a paragraph of
+    its own that then reads as empty and ends the iteration (see the Example
+    [C02_gpgmv_comment_block]); Check.v's [holds] excludes exactly that shape. *)
+Theorem C02_roundtrip_any_form_nocomment :
+  forall c ws crlf lead bs i,
+    forallb ws_line lead = true -> valid_blocks ws bs = true ->
+    In i (forms_of crlf (doc_lines lead bs)) ->
+    iter_paragraphs c ws i = Ok (map (fun b => expected_para (b_para b)) bs).
+Proof. exact roundtrip_any_form_nocomment. Qed.
+
+(** comments_ignored for Dsc/Changes: comment lines before a block's first
+    line, anywhere among the paragraph's lines, among the armour's header and
+    signature lines, and after the document, are ignored - in every input form.
+    ([valid_cblocks]; what it leaves out is the comment-only block closed by a
+    blank line, on which the statement is false.) *)
+Theorem C02_comments_ignored_dsc_changes :
+  forall ws crlf lead cbs trail i,
+    forallb ws_line lead = true -> valid_cblocks ws cbs = true ->
+    forallb comment_line trail = true ->
+    In i (forms_of crlf (cdoc_lines lead cbs trail)) ->
+    iter_paragraphs CGpgMv ws i = Ok (map (fun cb => expected_para (cb_para cb)) cbs).
+Proof. exact gpgmv_roundtrip_comments. Qed.
+
+(** The constructor cls(sequence) on a whole document reads its first paragraph:
+    for both classes in every form without comment lines, and for Deb822 with
+    comment lines anywhere. *)
+Theorem C02_constructor_reads_first :
+  forall c ws crlf lead b bs i,
+    forallb ws_line lead = true -> valid_blocks ws (b :: bs) = true ->
+    In i (forms_of crlf (doc_lines lead (b :: bs))) ->
+    deb822_new c ws i = Ok (expected_para (b_para b)).
+Proof. exact deb822_new_doc. Qed.
+
+Theorem C02_constructor_reads_first_comments :
+  forall ws crlf lead b bs ls i,
+    forallb ws_line lead = true -> valid_blocks ws (b :: bs) = true ->
+    forallb no_linebreak ls = true -> filter not_comment ls = doc_lines lead (b :: bs) ->
+    In i (forms_of crlf ls) ->
+    deb822_new CDeb822 ws i = Ok (expected_para (b_para b)).
+Proof. exact deb822_new_doc_comments. Qed.
+
+(** 7. The fuel of the model's paragraph loop is never exhausted: [OutOfFuel]
+       is not a possible result of [iter_paragraphs]. *)
+Theorem C02_no_fuel_error :
+  forall c ws i, iter_paragraphs c ws i <> Err OutOfFuel.
+Proof. intros c ws i. exact (iter_lines_no_fuel_error c ws (lines_of i)). Qed.
+
+(** * Non-vacuity *)
+
+Definition ex_d1 : list (str * str) :=
+  [(dec "Package", dec "  foo \000009");
+   (dec "Description", dec "short\00000a long: line\00000a .\00000a \000009#not a comment");
+   (dec "X-Empty", dec "");
+   (dec "x-Multi", dec "\00000a first is empty")].
+Definition ex_d2 : list (str * str) :=
+  [(dec "Source", dec ":-#"); (dec "Version", dec "1.0-1\0000a0")].
+Definition ex_armor : armor :=
+  mkArmor (dec " ") (dec "") (dec "\000009") [dec "Hash: SHA256"] (dec "")
+          [dec ""; dec "iQEzBAEBCAAdFiEE"; dec "=AbCd"].
+Definition ex_blocks : list block :=
+  [mkBlock ex_d1 None [dec ""; dec " \000009"]; mkBlock ex_d2 (Some ex_armor) []; mkBlock ex_d1 None []].
+Definition ex_lead : list str := [dec ""; dec "  "].
+(** the document's lines with comment lines inserted, also inside the envelope *)
+Definition ex_commented : list str :=
+  let ls := doc_lines ex_lead ex_blocks in
+  dec "# leading comment" :: firstn 3 ls ++ dec "#K: v" :: firstn 8 (skipn 3 ls)
+  ++ dec "#-----BEGIN PGP SIGNATURE-----" :: skipn 11 ls ++ [dec "#"].
+
+Example C02_nonvacuous :
+  valid_para ex_d1 = true /\ valid_para ex_d2 = true
+  /\ valid_armor true ex_armor = true
+  /\ forallb ws_line ex_lead = true /\ valid_blocks true ex_blocks = true
+  /\ forallb no_linebreak ex_commented = true
+  /\ filter not_comment ex_commented = doc_lines ex_lead ex_blocks
+  /\ List.length ex_commented = 34%nat
+  /\ expected_para ex_d1 <> ex_d1
+  /\ deb822_new CDeb822 false (InStr (dump ex_d1)) = Ok (expected_para ex_d1)
+  /\ forallb (fun i => result_eqb (list_eqb (list_eqb (pair_eqb str_eqb str_eqb)))
+                         (iter_paragraphs CDeb822 true i)
+                         (Ok [expected_para ex_d1; expected_para ex_d2; expected_para ex_d1]))
+             (forms_of true ex_commented) = true.
+Proof. vm_compute. repeat split; try reflexivity; discriminate. Qed.
+
+(** a commented, clearsigned document for Dsc/Changes; a text without final line end *)
+Definition ex_carmor : armor :=
+  mkArmor (dec "") (dec "") (dec "") [dec "Hash: SHA1"; dec "# in the header"] (dec "")
+          [dec "#sig comment"; dec "=AbCd"].
+Definition ex_cblocks : list cblock :=
+  [mkCBlock ex_d2 [dec "# before"; dec "#"] (dec "#c1" :: para_lines ex_d2 ++ [dec "#c2"]) (Some ex_carmor) [];
+   mkCBlock ex_d1 [dec "#again"] (firstn 2 (para_lines ex_d1) ++ dec "#-----END PGP SIGNATURE-----" :: skipn 2 (para_lines ex_d1))
+            None [dec ""]].
+
+Example C02_nonvacuous_dsc_changes :
+  valid_cblocks false ex_cblocks = true
+  /\ forallb comment_line [dec "# the end"] = true
+  /\ forallb (fun i => result_eqb (list_eqb (list_eqb (pair_eqb str_eqb str_eqb)))
+                         (iter_paragraphs CGpgMv false i)
+                         (Ok [expected_para ex_d2; expected_para ex_d1]))
+             (forms_of false (cdoc_lines [dec ""] ex_cblocks [dec "# the end"])) = true
+  /\ forallb no_linebreak (para_lines ex_d1 ++ para_lines ex_d2) = true
+  /\ forallb (fun i => result_eqb (list_eqb (list_eqb (pair_eqb str_eqb str_eqb)))
+                         (iter_paragraphs CGpgMv true i)
+                         (iter_lines CGpgMv true (para_lines ex_d1 ++ [dec ""; dec "K: v"])))
+             (forms_nofinal true (para_lines ex_d1 ++ [dec ""]) (dec "K: v")) = true
+  /\ deb822_new CGpgMv true (InLines (doc_lines ex_lead ex_blocks)) = Ok (expected_para ex_d1).
+Proof. vm_compute. repeat split; reflexivity. Qed.
+
+(** The stated limit of comments for Dsc/Changes (behaviour of the code, reproduced
+    by the correspondence check): a comment-only block followed by an empty line
+    ends the iteration. *)
+Example C02_gpgmv_comment_block :
+  iter_lines CGpgMv true [dec "#c"; dec ""; dec "K: v"] = Ok []
+  /\ iter_lines CDeb822 true [dec "#c"; dec ""; dec "K: v"] = Ok [[(dec "K", dec "v")]].
+Proof. vm_compute. split; reflexivity. Qed.
+
+Print Assumptions C02_dump_lines.
+Print Assumptions C02_dump_parse_para.
+Print Assumptions C02_dump_parse_doc.
+Print Assumptions C02_input_form_invariant.
+Print Assumptions C02_input_form_invariant_constructor.
+Print Assumptions C02_input_form_invariant_nofinal.
+Print Assumptions C02_line_ends_irrelevant.
+Print Assumptions C02_armor_invariant.
+Print Assumptions C02_armor_payload.
+Print Assumptions C02_plain_payload.
+Print Assumptions C02_comments_ignored.
+Print Assumptions C02_comments_ignored_constructor.
+Print Assumptions C02_roundtrip_any_form.
+Print Assumptions C02_roundtrip_any_form_nocomment.
+Print Assumptions C02_comments_ignored_dsc_changes.
+Print Assumptions C02_constructor_reads_first.
+Print Assumptions C02_constructor_reads_first_comments.
+Print Assumptions C02_no_fuel_error.
